@@ -1,5 +1,5 @@
 """Parallel discharge of (contract, configuration) tasks + triage of failures (DESIGN 1, 3.5, 3.6)."""
-import os, sys, time, random, traceback, multiprocessing as mp
+import json, os, sys, time, random, traceback, multiprocessing as mp
 REPO = os.environ.get('ALGOPY_REPO', '/repo')
 
 
@@ -33,6 +33,7 @@ def _run_one(args):
             return run_bounded_D(con, key, cfg, reg, tier, seed, out)
         r = verify_cfg(con, cfg, reg, REPO)
         out['obligations'] = r.obligations; out['undecided'] = r.undecided; out['sha'] = r.sha
+        out['cov'] = getattr(r, 'cov', None)
         failed = [o for o in r.obligations if o['verdict'] != 'unsat']
         rng = random.Random(seed * 7919 + __import__("zlib").crc32((key + cfg).encode()) % 10007)
         has_oracle = hasattr(con, 'oracle') and type(con).oracle is not __import__('vc.contract', fromlist=['Contract']).Contract.oracle
@@ -110,6 +111,7 @@ def run_bounded_D(con, key, cfg, reg, tier, seed, out):
         r = verify_cfg(con, cfg, reg, REPO, D=D)
         out['sha'] = r.sha
         if r.undecided: out['undecided'] = r.undecided; break
+        out['cov'] = getattr(r, 'cov', None)
         tot += len(r.obligations); ok += sum(1 for o in r.obligations if o['verdict'] == 'unsat')
         failed += [dict(o, D=D) for o in r.obligations if o['verdict'] != 'unsat']
         if failed: break
@@ -159,7 +161,57 @@ def feed(report, results, property_id):
         elif r['undecided']:
             report.undecide('%s[%s]' % (site, r['cfg']), r['undecided'] + (' ; bounded native stand-in passed (%d cells)' % r['native_cells'] if r['native_cells']
                             else ' ; no per-function native oracle: only the bounded engine of this property speaks for this function'))
+    _coverage(report, results, property_id)
     return 3 if crashed else 0
+
+
+COV_BASELINE = os.path.join(os.path.dirname(os.path.dirname(os.path.abspath(__file__))), 'coverage_baseline.json')
+
+def unreached(results):
+    """per function: statements (first source line) that the symbolic execution of NO configuration reached -- code that no obligation
+    speaks about (a branch the executor decided away, an operand kind without a configuration)"""
+    by = {}
+    for r in results:
+        c = r.get('cov')
+        if not c or c[0] is None: continue
+        f = by.setdefault(r['function'], {'visited': set(), 'stmts': {}})
+        f['visited'] |= set(c[0]); f['stmts'].update({ln: txt for ln, txt in c[1]})
+    return {fn: [t for ln, t in sorted(f['stmts'].items()) if ln not in f['visited']] for fn, f in by.items()}
+
+
+def _coverage(report, results, property_id):
+    """statements reached by no configuration are listed in the evidence; one that is NOT in the committed baseline of the pinned tree
+    (coverage_baseline.json: pytpcore branches, object-array branches, `out is None` prologues, ...) is new code the proof is silent
+    about: the function is reported UNDECIDED and its native stand-in is deepened (a failing input found there is a violation)"""
+    try: base = json.load(open(COV_BASELINE)).get(property_id, {})
+    except (OSError, ValueError): base = None
+    un = unreached(results)
+    report.extra['statements_reached_by_no_configuration'] = {fn: v for fn, v in un.items() if v}
+    if base is None: return
+    from lib import native
+    reg = _registry()
+    for fn, stmts in un.items():
+        new = [t for t in stmts if t not in base.get(fn, [])]
+        rs = [r for r in results if r['function'] == fn]
+        if not new or any(r['undecided'] or r['violation'] or r['crash'] for r in rs): continue        # already handled by the rules above
+        cells = 0; fail = None
+        for r in rs:
+            con = reg[r['key']]
+            if type(con).oracle is __import__('vc.contract', fromlist=['Contract']).Contract.oracle: continue
+            rng = random.Random(4242 + __import__('zlib').crc32((r['key'] + r['cfg']).encode()) % 10007)
+            try:
+                for D in ((7, 9, 12, 16, 24, 33) if not con.cell_shapes(r['cfg']) else (5, 6, 8, 11)):
+                    for rep_ in range(3):
+                        n, fail = native.check_kernel(con, r['cfg'], D, 2, (2,), rng); cells += n
+                        if fail: break
+                    if fail: break
+            except NotImplementedError: continue
+            if fail:
+                report.violation(fn, 'cfg=%s array=%s' % (r['cfg'], fail.get('array')), 'native: order %s observed %s expected %s (code reached by no configuration of the contract: %s)' % (fail.get('order'), fail.get('observed'), fail.get('expected'), new[:3]),
+                                 {'kind': 'kernel', 'function': fn, 'contract_key': r['key'], 'cfg': r['cfg'], 'failure': fail, 'obligations_failed': ['(statements reached by no configuration: %s)' % new[:3]]})
+                break
+        if not fail:
+            report.undecide('%s[coverage]' % fn, 'statement(s) reached by no configuration of the contract, i.e. covered by no obligation: %s ; %s' % (new[:4], ('deepened native stand-in passed (%d cells)' % cells) if cells else 'no per-function native oracle'))
 
 
 def _dp_one(args):
